@@ -2,6 +2,7 @@ import Gimli.Lemmas.LineSeq
 import Gimli.Lemmas.LineHeader
 import Gimli.Lemmas.LineEncode
 import Gimli.Lemmas.LineHeaderRt
+import Gimli.Lemmas.LineHeaderV5
 import Gimli.Lemmas.LineNext
 /-!
 # C04 — Line-number rows equal the DWARF state machine; sequences are consistent
@@ -365,18 +366,14 @@ theorem header_total (e : Endian) (sec : Bytes) (off asz : Nat) (cd cn : Option 
     (program e sec off asz cd cn).Normal :=
   program_normal e sec off asz cd cn
 
-/-- **Header round trip** — partial: versions 2–4. For every well-formed abstract header
+/-- **Header round trip, versions 2–4.** For every well-formed abstract header
 (`HeaderV4.WF`: valid parameters, non-empty NUL-free directory and file names, `u64` file
 attributes, lengths that fit their fields), either format, either byte order, any
 `standard_opcode_lengths`: parsing its §6.2.4 encoding (followed by anything) returns exactly its
 parameters, its include directories, its file table (name, directory index, time, size), its
-program bytes, and the caller's `comp_dir`/`comp_name` as directory 0 / file 0.
-
-Missing for the full statement: version 5 (`directory_entry_format` / `file_name_entry_format`
-tables and the forms of `parse_attribute`) — modelled (`parseHeader`), total (`header_total`) and
-valid (`header_valid`), and checked against the generator's intent by the `line-hexp` oracle, but
-without an encoder-level theorem. -/
-theorem header_roundtrip_partial (hs : HeaderV4) (hwf : hs.WF) (cd cn : Option Bytes)
+program bytes, and the caller's `comp_dir`/`comp_name` as directory 0 / file 0. (Version 5:
+`header_roundtrip_v5`.) -/
+theorem header_roundtrip (hs : HeaderV4) (hwf : hs.WF) (cd cn : Option Bytes)
     (bytes trailing : Bytes) (henc : encodeHeaderV4 hs = .ok bytes) :
     parseHeader hs.p.endian hs.p.addrSize cd cn (bytes ++ trailing) = .ok (hs.expected cd cn) :=
   parseHeader_encodeV4 hs hwf cd cn bytes trailing henc
@@ -400,5 +397,37 @@ def hdrEx : HeaderV4 where
 
 example : hdrEx.WF := by decide
 example : (encodeHeaderV4 hdrEx).isOk = true := by decide
+
+/-- **Header round trip, version 5.** For every well-formed abstract version-5 header
+(`HeaderV5.WF`: valid parameters; `directory_entry_format` and `file_name_entry_format` with up to
+255 fields, any content types that fit `u16` — known, unknown, vendor —, exactly one
+`DW_LNCT_path`; any number of entries, each written field by field in the announced form, over
+*all* forms the line reader accepts: block1/2/4/block, data1/2/4/8/16, udata, sdata, flag,
+sec_offset, string, strp, strp_sup, GNU_strp_alt, line_strp, strx, GNU_str_index, strx1–4; either
+format and byte order): parsing the §6.2.4 encoding returns exactly the parameters (address size
+from the header itself), both format tables, the directory of every entry (its `DW_LNCT_path`
+value), the file of every entry (fields applied left to right: path, directory index, timestamp,
+size, MD5, source; unknown content types skipped) and the program bytes; `comp_dir`/`comp_name`
+are ignored. The field semantics (`FileAcc.update`) is shared between Model and Spec; what the
+theorem adds is that the byte-level decoding of formats, counts and every form is exact. -/
+theorem header_roundtrip_v5 (hs : HeaderV5) (hwf : hs.WF) (asz : Nat) (cd cn : Option Bytes)
+    (bytes trailing : Bytes) (henc : encodeHeaderV5 hs = .ok bytes) :
+    parseHeader hs.p.endian asz cd cn (bytes ++ trailing) = .ok hs.expected :=
+  parseHeader_encodeV5 hs hwf asz cd cn bytes trailing henc
+
+/-- non-vacuity: directories (path as `line_strp`, plus an unknown vendor content type as `udata`),
+files with path/`string`, directory index/`udata`, MD5/`data16`, size/`data2`, timestamp/`sdata` -/
+def hdrEx5 : HeaderV5 where
+  p := hdrVliw
+  dirFormat := [(0x2002, 0x0f), (1, 0x1f)]
+  dirs := [[.udata 7, .lineStrp 0], [.udata 300, .lineStrp 0x1234]]
+  fileFormat := [(1, 0x08), (2, 0x0f), (5, 0x1e), (4, 0x05), (3, 0x0d)]
+  files := [[.string [0x61, 0x2e, 0x63], .udata 1, .data16 (List.replicate 16 0xab), .data2 515, .sdata 99],
+            [.string [0x62], .udata 0, .data16 (List.replicate 16 1), .data2 0, .sdata (-1)]]
+  program := [0, 1, 1]
+
+example : hdrEx5.WF := by decide +kernel
+example : hdrEx5.expected.files.map (fun f => (f.dirIndex, f.size, f.timestamp)) = [(1, 515, 99), (0, 0, 0)] := by
+  decide +kernel
 
 end Gimli.Props.C04
